@@ -1,8 +1,143 @@
-import ArchSim.Model.Pipe
+/-
+C08 — hazard detection off = interlock-free pipeline.
+Property theorems only; helper lemmas are in `ArchSim/Lemmas/C08*.lean` (and `C07*.lean`).
+-/
+import ArchSim.Lemmas.C08Read
+import ArchSim.Lemmas.C08Pad
+import ArchSim.Lemmas.C08Stale
+import ArchSim.Lemmas.C07SkelStep
+import ArchSim.Spec.Iter
+
 namespace ArchSim.Props.C08
-open ArchSim.Pipe
+open ArchSim ArchSim.Rv ArchSim.Pipe ArchSim.Lemmas.C02Split ArchSim.Lemmas.C07 ArchSim.Lemmas.C08
+
 /-- With hazard detection off the ID stage never sets its stall signal on the latch it produces. -/
 theorem idStage_no_stall (regs : Nat → Nat) (inp l1 l2 : Option Latch) :
-    latchStall (idStage false regs inp l1 l2) = false := by
-  cases inp <;> simp [idStage, latchStall, idStall]
+    latchStall (idStage false regs inp l1 l2) = false :=
+  latchStall_idStage_off regs inp l1 l2
+
+/-! ### B. no decode-stage stall -/
+
+/-- The initial pipeline has no decode stall in progress. -/
+theorem no_id_stall_init (s : St) (hz : Bool) : NoIdStall (PSt.init s hz) := noIdStall_init s hz
+
+/-- With hazard detection off a step (faulting or not) never starts a decode stall: if no decode stall
+    (`k = 1`) is in progress before the step, none is afterwards. -/
+theorem no_id_stall (p : PSt) (hz : p.hazard = false) (hp : NoIdStall p) : NoIdStall (step p).p :=
+  step_noIdStall p hz hp
+
+/-- `step` never changes the hazard-detection flag. -/
+theorem hazard_flag_constant (p : PSt) : (step p).p.hazard = p.hazard := step_hazard p
+
+/-- Hence along any run from the initial state with detection off no decode stall is ever recorded. -/
+theorem no_id_stall_run (s : St) (n : Nat) :
+    NoIdStall (iter (fun p => (step p).p) n (PSt.init s false)) ∧
+    (iter (fun p => (step p).p) n (PSt.init s false)).hazard = false := by
+  induction n with
+  | zero => exact ⟨noIdStall_init s false, rfl⟩
+  | succ n ih =>
+    rw [iter_succ']
+    exact ⟨step_noIdStall _ ih.2 ih.1, by rw [step_hazard]; exact ih.2⟩
+
+/-- With detection off the `stalls` counter goes up by one exactly in the exception-free cycles in
+    which the pipeline is not already stalled and the EX stage raises its stall signal … -/
+theorem stalls_count_ex_only (p : PSt) (hz : p.hazard = false) (hp : NoIdStall p) :
+    (step p).p.st.stalls = p.st.stalls +
+      (if (step p).fault = none ∧ p.stalled = none ∧ latchStall (exO p).latch = true then 1 else 0) :=
+  step_stalls_off p hz hp
+
+/-- … and EX raises its stall signal exactly for an ecall that must wait for older instructions
+    (an ecall drain). -/
+theorem ex_stall_is_ecall_drain (s : St) (inp l2 l3 : Option Latch) :
+    latchStall (exStage s inp l2 l3).latch = true ↔
+      ∃ d, inp = some d ∧ d.instr.op = .ecall ∧ ecallMustWait d l2 l3 = true :=
+  exStage_stall_iff s inp l2 l3
+
+/-! ### C. stale-read semantics -/
+
+/-- Only WB writes registers: after any step, faulting or not, the register file is the old one with
+    this cycle's write-back of the MEM/WB register applied. -/
+theorem regs_written_by_wb_only (p : PSt) : (step p).p.st.regs = regsAfterWB p.l3 p.st.regs :=
+  step_regs p
+
+/-- The ID stage reads the register file after this cycle's write-back and before anything else: its
+    output is `idStage` on the registers `regsAfterWB p.l3 p.st.regs`. -/
+theorem id_reads_after_wb (p : PSt) :
+    nID p = idStage p.hazard (regsAfterWB p.l3 p.st.regs) (idInput p) p.l1 p.l2 :=
+  nID_eq p
+
+/-- No forwarding: the operands latched for the instruction in ID are read from that register file,
+    independently of the instructions in the ID/EX and EX/MEM registers — a producer one or two slots
+    ahead has not written yet, so the consumer sees the old value; a producer three slots ahead (in
+    MEM/WB) has. -/
+theorem id_operands_stale (p : PSt) (f : Latch) (h : idInput p = some f) :
+    ∃ x, nID p = some x ∧ x.instr = f.instr ∧ x.addr = f.addr ∧
+      x.rr = accessRegs f.instr (regsAfterWB p.l3 p.st.regs) :=
+  nID_rr p f h
+
+/-- In an exception-free step the new ID/EX register is that ID output (or empty after a flush). -/
+theorem id_output_latched (p : PSt) (h : (step p).fault = none) :
+    (step p).p.l1 = nID p ∨ (step p).p.l1 = none :=
+  step_l1 p h
+
+/-- When the consumer has no register conflict with a producer, the producer's (later) write-back does
+    not change the operands the consumer latched: the stale read of the interlock-free pipeline is then
+    the read single-cycle mode would make. -/
+theorem stale_read_harmless (c : Instr) (m : Latch) (regs : Nat → Nat) (hw : m.wreg = writeReg m.instr)
+    (h : conflict c m.instr = false) : accessRegs c (wbRegs m regs) = accessRegs c regs :=
+  accessRegs_wbRegs c m regs hw h
+
+/-- With detection off the pipeline simulates the schedule skeleton with the interlock rule removed:
+    the skeleton's ID stall signal is constantly false, while the erasure equation (`erase` commutes
+    with every exception-free cycle; redirects and ecall draining are the skeleton's) still holds. -/
+theorem skeleton_interlock_off (p : PSt) (hz : p.hazard = false) (h : (step p).fault = none) :
+    ArchSim.Spec.Skeleton.idStallSig (erase p) = false ∧
+    erase (step p).p = ArchSim.Spec.Skeleton.step (erase p) (outcomes p) :=
+  ⟨idStallSig_off (erase p) hz, erase_step p h⟩
+
+/-! ### F. hazard-free programs and nop padding -/
+
+/-- Padding every instruction with two `addi x0,x0,0` makes ANY program hazard-free: no instruction
+    reads a non-x0 register written by one of the two instructions before it. -/
+theorem pad_hazard_free (prog : List Instr) : HazardFree (pad prog) := pad_hazardFree prog
+
+/-- The padded program has the original instruction `m` at index `3 m` and is three times as long. -/
+theorem pad_layout (prog : List Instr) (m : Nat) :
+    (pad prog)[3 * m]? = prog[m]? ∧ (pad prog).length = 3 * prog.length :=
+  ⟨pad_at prog m, pad_length prog⟩
+
+/-- In a hazard-free program the decode hazard test — even with detection ON — is negative whenever the
+    ID/EX and EX/MEM registers are empty or hold program instructions one or two places before the
+    instruction in decode (its fall-through neighbours): no interlock would ever fire. -/
+theorem hazard_free_no_interlock (prog : List Instr) (hfree : HazardFree prog) (hz : Bool) (a : Nat)
+    (c : Instr) (hc : prog[a]? = some c) (regs : Nat → Nat) (l1 l2 : Option Latch)
+    (h1 : ∀ x, l1 = some x → ∃ b, b < a ∧ a ≤ b + 2 ∧ prog[b]? = some x.instr)
+    (h2 : ∀ x, l2 = some x → ∃ b, b < a ∧ a ≤ b + 2 ∧ prog[b]? = some x.instr) :
+    idStall hz (accessRegs c regs) l1 l2 = false :=
+  idStall_hazardFree prog hfree hz a c hc regs l1 l2 h1 h2
+
+/-! ### Non-vacuity -/
+
+/-- `addi x1,x0,5 ; add x2,x1,x1` has a distance-1 dependence; its padding has none. -/
+def depProg : List Instr :=
+  [{ op := .addi, rd := 1, rs1 := 0, imm := 5 }, { op := .add, rd := 2, rs1 := 1, rs2 := 1 }]
+
+example : ¬ HazardFree depProg := by decide
+example : HazardFree (pad depProg) := pad_hazard_free depProg
+example : (pad depProg).length = 6 := by decide
+
+/-- With detection off the dependent pair reads the stale x1 (x2 = 0), the padded program the new
+    one (x2 = 10), and neither ever records a stall. -/
+def stOf (prog : List Instr) : St :=
+  { regs := fun _ => 0, pc := 0, mem := .flat (Mem.Mem.empty Mem.riscvCfg),
+    imem := { prog := prog, cache := none }, output := "", exitCode := none, cycles := 0,
+    instrs := 0, branches := 0, procs := 0, stalls := 0, flushes := 0 }
+
+example : (iter (fun p => (step p).p) 6 (PSt.init (stOf depProg) false)).st.regs 2 = 0 ∧
+    (iter (fun p => (step p).p) 6 (PSt.init (stOf depProg) false)).st.stalls = 0 ∧
+    (iter (fun p => (step p).p) 10 (PSt.init (stOf (pad depProg)) false)).st.regs 2 = 10 ∧
+    (iter (fun p => (step p).p) 10 (PSt.init (stOf (pad depProg)) false)).st.stalls = 0 ∧
+    isDone (iter (fun p => (step p).p) 10 (PSt.init (stOf (pad depProg)) false)) = true := by
+  decide
+
 end ArchSim.Props.C08
